@@ -98,7 +98,11 @@ type Workload struct {
 	// NonMonotone allows a native application to write a timestamp that is
 	// not above the version it overwrites locally (clock skew between hosts).
 	NonMonotone bool
-	seq         int
+	// per-DBI overrides (fleet-shadow: integer-key and dupsort DBIs)
+	DBIKeys  map[string][]string
+	DBIFlags map[string]uint
+	DupVals  []string // value pool for dupsort DBIs
+	seq      int
 }
 
 // Gen draws one transaction for the node.
@@ -107,9 +111,15 @@ func (w *Workload) Gen(t *Tape, n *Node, now time.Time, stored Logical) []AppOp 
 	nops := 1 + t.Weighted("app-nops", opsWeights(w.MaxOps))
 	var ops []AppOp
 	for i := 0; i < nops; i++ {
+		dbiName := w.DBIs[t.Choose("app-dbi", len(w.DBIs))]
+		keys := w.Keys
+		if ks, ok := w.DBIKeys[dbiName]; ok {
+			keys = ks
+		}
 		op := AppOp{
-			DBI: w.DBIs[t.Choose("app-dbi", len(w.DBIs))],
-			Key: []byte(w.Keys[t.Choose("app-key", len(w.Keys))]),
+			DBI:      dbiName,
+			DBIFlags: w.DBIFlags[dbiName],
+			Key:      []byte(keys[t.Choose("app-key", len(keys))]),
 		}
 		if t.Chance("app-del", w.DelRate) {
 			op.Kind = OpDel
